@@ -250,6 +250,9 @@ impl Reader {
                     .ok_or(format::Error::TickOverflow)?
                     .checked_add(dt)
                     .ok_or(format::Error::TickOverflow)?;
+                // An explicit tick skip starts a new tick, the next player
+                // record can't imply another one.
+                self.prev_player_cid = None;
                 if self.in_tick {
                     self.in_tick = false;
                     Item::TickEnd(old_tick)
